@@ -569,6 +569,12 @@ fn gen_itp_params(rng: &mut Rng) -> (f64, f64, f64) {
     // k2 = 2 is the value recommended by the method's authors and used in the crate's documentation
     let k2 = if rng.below(4) == 0 { 2.0 } else { rng.r(1.001, 2.617) };
     let n0 = if rng.bool() { rng.below(4) as f64 } else { rng.r(0.0, 3.0) };
+    if rng.chance(0.02) {
+        // n0 has no upper limit: with several hundred the scale tol 2^(n_half + 2 n0 - j) is beyond the
+        // largest float for the first iterations; the evaluation bound n_half + 2 n0 + const holds all
+        // the same (k1 tiny, so that the truncation step alone does not finish the job early)
+        return (rng.log10(-10.0, -6.0), k2, *rng.pick(&[513.0, 600.0, 800.0]));
+    }
     (k1, k2, n0)
 }
 
